@@ -1,0 +1,141 @@
+//go:build verif
+
+// Contracts for the govc verifier (/verif). Comment-only.
+// Logical views of the store namespace `ns` over the G-DB ghost state of
+// package walletdb (DBlive / DBhas / DBval / wfault).
+
+package wtxmgr
+
+
+// bucket names are distinct byte strings (var block at the top of db.go)
+//@ axiom bucket_names_distinct: bytes(bucketBlocks) != bytes(bucketTxRecords) && bytes(bucketUnspent) != bytes(bucketLockedOutputs)
+//@     && bytes(bucketUnspent) != bytes(bucketUnminedCredits) && bytes(bucketUnminedCredits) != bytes(bucketLockedOutputs)
+//@     && bytes(bucketUnminedInputs) != bytes(bucketLockedOutputs) && bytes(bucketUnminedInputs) != bytes(bucketUnspent)
+//@     && bytes(bucketUnminedInputs) != bytes(bucketUnminedCredits) && bytes(bucketUnmined) != bytes(bucketUnminedCredits)
+//@     && bytes(bucketCredits) != bytes(bucketUnspent) && bytes(bucketCredits) != bytes(bucketDebits) && bytes(bucketDebits) != bytes(bucketUnspent)
+//@ axiom wtxmgr_errs: ErrUnknownOutput != nil && ErrOutputAlreadyLocked != nil && ErrOutputUnlockNotAllowed != nil
+//@     && ErrUnknownOutput != ErrOutputAlreadyLocked && ErrOutputAlreadyLocked != ErrOutputUnlockNotAllowed && ErrUnknownOutput != ErrOutputUnlockNotAllowed
+
+// ids of the nested buckets of a namespace
+//@ macro B_U(ns) = sub(bid(ns), bytes(bucketUnspent))
+//@ macro B_MC(ns) = sub(bid(ns), bytes(bucketUnminedCredits))
+//@ macro B_MI(ns) = sub(bid(ns), bytes(bucketUnminedInputs))
+//@ macro B_LO(ns) = sub(bid(ns), bytes(bucketLockedOutputs))
+// the namespace was created by createStore: the standard buckets exist
+//@ macro NSWF(ns) = ns != nil && select(DBlive, B_U(ns)) && select(DBlive, B_MC(ns)) && select(DBlive, B_MI(ns))
+
+// canonical outpoint key: 32 hash bytes then the index big-endian
+//@ spec func kopArr(h [Int]Int, idx Int) [Int]Int
+//@ axiom kopArr_def: forall h [Int]Int, x Int, i Int :: {select(kopArr(h, x), i)}
+//@     select(kopArr(h, x), i) == ((0 <= i && i < 32) ? select(h, i) : ((32 <= i && i < 36) ? be32byte(x, i - 32) : 0))
+//@ spec func K_op(h [Int]Int, idx Int) Bytes = mkbytes(36, kopArr(h, idx))
+
+// lease record: 32 id bytes then the expiry in whole seconds, big-endian
+//@ spec func leaseSec(v Bytes) Int = be64(bat(v, 32), bat(v, 33), bat(v, 34), bat(v, 35), bat(v, 36), bat(v, 37), bat(v, 38), bat(v, 39))
+//@ spec func secToInt(v Int) Int = v > 9223372036854775807 ? v - 18446744073709551616 : v
+// every stored lease record is 40 bytes long (written only by lockOutput)
+//@ macro INV_LO(ns) = (forall k Bytes :: {select(select(DBval, B_LO(ns)), k)} select(select(DBhas, B_LO(ns)), k) ==> blen(select(select(DBval, B_LO(ns)), k)) == 40)
+
+//@ func storeError(c, desc, err) (r)
+//@   property C12 C10 C01
+//@   pure
+//@   ensures fields: r.Code == c && r.Err == err
+
+//@ func canonicalOutPoint(txHash, index) (k)
+//@   property C12 C01
+//@   requires nonnil: txHash != nil
+//@   fresh k
+//@   ensures key: len(k) == 36 && bytes(k) == K_op(old(deref(txHash)), index)
+//@   ensures frame: forall o Int :: {select(@M(uint8), o)} oldalloc(o) ==> select(@M(uint8), o) == select(old(@M(uint8)), o)
+
+//@ func serializeLockedOutput(id, expiry) (v)
+//@   property C12
+//@   fresh v
+//@   ensures layout: len(v) == 40 && (forall i Int :: {v[i]} 0 <= i && i < 32 ==> v[i] == select(id, i))
+//@       && (forall j Int :: {v[j]} 32 <= j && j < 40 ==> v[j] == be64byte(tns(expiry) / 1000000000 < 0 ? tns(expiry) / 1000000000 + 18446744073709551616 : tns(expiry) / 1000000000, j - 32))
+//@   ensures frame: forall o Int :: {select(@M(uint8), o)} oldalloc(o) ==> select(@M(uint8), o) == select(old(@M(uint8)), o)
+
+//@ func deserializeLockedOutput(v) (id, expiry)
+//@   property C12
+//@   requires len: len(v) >= 40
+//@   pure
+//@   ensures id: forall i Int :: {select(id, i)} 0 <= i && i < 32 ==> select(id, i) == v[i]
+//@   ensures expiry: tns(expiry) == secToInt(leaseSec(bytes(v))) * 1000000000
+
+// An output is leased exactly while a record exists and now < its expiry.
+//@ func isLockedOutput(ns, op, timeNow) (id, expiry, locked)
+//@   property C12 C01
+//@   requires ns: ns != nil
+//@   requires wf: INV_LO(ns)
+//@   ensures locked_iff: locked == (select(DBlive, B_LO(ns)) && HAS(B_LO(ns), K_op(op.Hash, op.Index))
+//@       && tns(timeNow) < secToInt(leaseSec(VAL(B_LO(ns), K_op(op.Hash, op.Index)))) * 1000000000)
+//@   ensures fields: locked ==> tns(expiry) == secToInt(leaseSec(VAL(B_LO(ns), K_op(op.Hash, op.Index)))) * 1000000000
+//@       && (forall i Int :: {select(id, i)} 0 <= i && i < 32 ==> select(id, i) == bat(VAL(B_LO(ns), K_op(op.Hash, op.Index)), i))
+//@   ensures db_unchanged: DBhas == old(DBhas) && DBval == old(DBval) && DBlive == old(DBlive)
+
+// ---- lease (output lock) operations ----
+//@ macro KOP(op) = K_op(op.Hash, op.Index)
+//@ macro KNOWN(ns, op) = (HAS(B_MC(ns), KOP(op)) || (HAS(B_U(ns), KOP(op)) && blen(VAL(B_U(ns), KOP(op))) >= 36))
+//@ macro LEASED_AT(ns, op, t) = (select(DBlive, B_LO(ns)) && HAS(B_LO(ns), KOP(op)) && t < secToInt(leaseSec(VAL(B_LO(ns), KOP(op)))) * 1000000000)
+//@ macro LEASE_ID_IS(ns, op, id) = (forall i Int :: {select(id, i)} 0 <= i && i < 32 ==> bat(VAL(B_LO(ns), KOP(op)), i) == select(id, i))
+//@ macro DB_UNCHANGED() = (DBhas == old(DBhas) && DBval == old(DBval) && DBlive == old(DBlive))
+
+//@ func existsRawUnminedCredit(ns, k) (v)
+//@   property C12 C01
+//@   requires wf: ns != nil && select(DBlive, B_MC(ns))
+//@   ensures nil_iff_absent: (v == nil) == !HAS(B_MC(ns), old(bytes(k)))
+//@   ensures db_unchanged: DB_UNCHANGED()
+
+//@ func existsRawUnspent(ns, k) (credKey)
+//@   property C12 C01
+//@   requires wf: ns != nil && select(DBlive, B_U(ns))
+//@   ensures nil_iff_absent: (credKey == nil) == !(len(k) >= 36 && HAS(B_U(ns), old(bytes(k))) && blen(VAL(B_U(ns), old(bytes(k)))) >= 36)
+//@   ensures db_unchanged: DB_UNCHANGED()
+
+//@ func isKnownOutput(ns, op) (r)
+//@   property C12
+//@   requires wf: NSWF(ns)
+//@   ensures known: r == KNOWN(ns, op)
+//@   ensures db_unchanged: DB_UNCHANGED()
+
+//@ func lockOutput(ns, id, op, expiry) (err)
+//@   property C12 C10
+//@   requires ns: ns != nil
+//@   ensures stored: err == nil ==> select(DBlive, B_LO(ns)) && HAS(B_LO(ns), KOP(op)) && blen(VAL(B_LO(ns), KOP(op))) == 40
+//@   ensures stored_id: err == nil ==> LEASE_ID_IS(ns, op, id)
+//@   ensures stored_expiry: err == nil ==> leaseSec(VAL(B_LO(ns), KOP(op))) == (tns(expiry) / 1000000000 < 0 ? tns(expiry) / 1000000000 + 18446744073709551616 : tns(expiry) / 1000000000)
+//@   ensures others_kept: err == nil ==> (forall k Bytes :: {select(select(DBhas, B_LO(ns)), k)} k != KOP(op) ==>
+//@       HAS(B_LO(ns), k) == (old(select(DBlive, B_LO(ns))) && old(HAS(B_LO(ns), k))) && (HAS(B_LO(ns), k) ==> VAL(B_LO(ns), k) == old(VAL(B_LO(ns), k))))
+//@   ensures failure_reported: wfault && !old(wfault) ==> err != nil
+//@   ensures failure_changes_nothing_else: err != nil ==> DBhas == old(DBhas) || select(DBlive, B_LO(ns))
+
+//@ func unlockOutput(ns, op) (err)
+//@   property C12 C10
+//@   requires ns: ns != nil
+//@   ensures released: err == nil ==> !(select(DBlive, B_LO(ns)) && HAS(B_LO(ns), KOP(op)))
+//@   ensures others_kept: err == nil ==> DBlive == old(DBlive) && DBval == old(DBval) && (forall k Bytes :: {select(select(DBhas, B_LO(ns)), k)} k != KOP(op) ==> HAS(B_LO(ns), k) == old(HAS(B_LO(ns), k)))
+//@   ensures failure_reported: wfault && !old(wfault) ==> err != nil
+//@   ensures failure_changes_nothing: err != nil ==> DB_UNCHANGED()
+
+// LockOutput: unknown outputs are refused; an output leased to another id (at
+// the first clock reading) is refused; otherwise the lease is (re)written for
+// this id with expiry = second clock reading + duration.
+//@ func (*Store).LockOutput(s, ns, id, op, duration) (expiry, err)
+//@   property C12
+//@   requires wf: s != nil && s.clock != nil && NSWF(ns) && INV_LO(ns)
+//@   ensures unknown_refused: !old(KNOWN(ns, op)) ==> err == ErrUnknownOutput && DB_UNCHANGED()
+//@   ensures other_id_refused: old(KNOWN(ns, op)) && old(LEASED_AT(ns, op, tns(clockVal(clk)))) && !old(LEASE_ID_IS(ns, op, id))
+//@       ==> err == ErrOutputAlreadyLocked && DB_UNCHANGED()
+//@   ensures granted: err == nil ==> old(KNOWN(ns, op)) && HAS(B_LO(ns), KOP(op)) && LEASE_ID_IS(ns, op, id)
+//@       && tns(expiry) == tns(clockVal(old(clk) + 1)) + duration
+//@       && secToInt(leaseSec(VAL(B_LO(ns), KOP(op)))) == tns(expiry) / 1000000000
+
+//@ func (*Store).UnlockOutput(s, ns, id, op) (err)
+//@   property C12
+//@   requires wf: s != nil && s.clock != nil && NSWF(ns) && INV_LO(ns)
+//@   ensures unknown_refused: !old(KNOWN(ns, op)) ==> err == ErrUnknownOutput && DB_UNCHANGED()
+//@   ensures not_leased_noop: old(KNOWN(ns, op)) && !old(LEASED_AT(ns, op, tns(clockVal(clk)))) ==> err == nil && DB_UNCHANGED()
+//@   ensures other_id_refused: old(KNOWN(ns, op)) && old(LEASED_AT(ns, op, tns(clockVal(clk)))) && !old(LEASE_ID_IS(ns, op, id))
+//@       ==> err == ErrOutputUnlockNotAllowed && DB_UNCHANGED()
+//@   ensures released: old(KNOWN(ns, op)) && old(LEASED_AT(ns, op, tns(clockVal(clk)))) && old(LEASE_ID_IS(ns, op, id)) && err == nil
+//@       ==> !HAS(B_LO(ns), KOP(op))
